@@ -539,3 +539,35 @@ Module Toy.
     - intros a b c H1 H2. apply Nat.eqb_eq in H1, H2. subst. apply Nat.eqb_refl.
   Qed.
 End Toy.
+
+(* ---------------- t_range over binary64: the fit with the real closest_t ---------------- *)
+From AG Require Recon.Helix_proofs.
+(* track_fitting.rs:112-119: the helix built from best_params *)
+Definition helix_of_params (l : list PrimFloat.float) : helix :=
+  let g i := nth i l PrimFloat.zero in mk_helix (g 0) (g 1) (g 2) (g 3) (g 4) (g 5).
+
+Theorem fit_t_range_binary64_lemma :
+  forall (L : libm) (tol : PrimFloat.float) (iters : nat),
+  (forall y x, Helix_proofs.rn (latan2 L y x)) ->
+  forall (flt feq : PrimFloat.float -> PrimFloat.float -> bool) fcmp fnan fadd fsub fmul fhalf fabs fzero
+    guess6 bump point_val nm sd_tol_ok (pts : list spoint),
+  (forall x y, fnan x = false -> fnan y = false -> fcmp x y <> None) ->
+  (forall a b p, In a pts -> In b pts -> In p pts ->
+     fnan (dev PrimFloat.float spoint sp_r fsub fabs (fhalf (fadd (sp_r a) (sp_r b))) p) = false) ->
+  (forall p q, In q pts -> fnan (point_val p q) = false) ->
+  (forall (c : list PrimFloat.float -> res PrimFloat.float) s n,
+     (forall p, length p = n -> c p <> Panic /\ forall k, c p <> Err k) ->
+     Forall (fun v => length v = n) s -> s <> [] ->
+     exists v, nm c s = Ok (Some v) /\ length v = n) ->
+  (forall f m l, length (guess6 pts f m l) = 6) -> sd_tol_ok = true -> 3 <= length pts ->
+  forall tr,
+  fit_cluster_to_helix PrimFloat.float spoint sp_r (sp_x L) (sp_y L) flt feq fcmp fnan fadd fsub fmul fhalf fabs fzero
+    guess6 bump point_val (fun hp q => closest_t L (helix_of_params hp) q tol iters) nm sd_tol_ok pts = Ok tr ->
+  Helix_proofs.rn (tr_t_inner PrimFloat.float tr) /\ Helix_proofs.rn (tr_t_outer PrimFloat.float tr).
+Proof.
+  intros L tol iters Hat flt feq fcmp fnan fadd fsub fmul fhalf fabs fzero guess6 bump point_val nm sd pts
+    H1 H2 H3 H4 H5 H6 H7 tr Htr.
+  eapply (fit_t_range_lemma PrimFloat.float spoint sp_r (sp_x L) (sp_y L) flt feq fcmp fnan fadd fsub fmul fhalf fabs
+            fzero guess6 bump point_val _ nm sd pts H1 H2 H3 H4 H5 H6 H7 Helix_proofs.rn); [ | exact Htr].
+  intros hp q. apply Helix_proofs.closest_t_range_lemma. exact Hat.
+Qed.
